@@ -104,6 +104,7 @@ int __wrap_select(int nfds, fd_set *r, fd_set *w, fd_set *e, struct timeval *tv)
   (void)nfds; (void)e;
   step();
   long t = tv ? tv->tv_sec : 0;
+  if (tv && (tv->tv_sec < 0 || tv->tv_usec < 0 || tv->tv_usec >= 1000000)) { errno = EINVAL; return -1; } /* as the kernel does */
   TR("select(%s) rpos=%d cut=%d errno=%d\n", w ? "w" : "r", rpos, C.cut, errno);
   if (w) { /* writability */
     switch (choose(3)) {
@@ -471,7 +472,7 @@ static void enumerate(int thorough) {
   /* C. option parsing: sock= / timeout= variants, unknown options, no user */
   const char *optsets[][4] = {
     {"sock=", NULL}, {"sock=/a", "sock=/b", NULL}, {"timeout=", NULL}, {"timeout=0", NULL}, {"timeout=-1", NULL}, {"timeout=x", NULL}, {"timeout=1", "timeout=5", NULL},
-    {"timeout=2147483647", NULL}, {"unknown", "sock", NULL}, {"debug", "timeout=99999999999", NULL}, {NULL}};
+    {"timeout=2147483647", NULL}, {"unknown", "sock", NULL}, {"debug", "timeout=99999999999", NULL}, {"timeout=-3", NULL}, {"timeout=4294967295", NULL}, {"timeout=2147483648", NULL}, {"timeout=1x", NULL}, {"timeout= 7", NULL}, {NULL}};
   for (unsigned oi = 0; oi < sizeof optsets / sizeof optsets[0]; oi++) for (int nouser = 0; nouser < 2; nouser++) for (int endc = 0; endc < 2; endc++) {
     C.user = nouser ? NULL : "bob"; C.password = "secret"; C.authtok_on_stack = 0; C.prompt_kind = 0; C.flags = 0; C.init_errno = 0;
     C.argc = 0;
@@ -479,6 +480,7 @@ static void enumerate(int thorough) {
     timeout_cfg = 3;
     if (oi == 6) timeout_cfg = 5;
     if (oi == 7) timeout_cfg = 2147483647;
+    if (oi == 14) timeout_cfg = 7; /* atoi skips the blank */
     okbody[0] = 'O'; okbody[1] = 'K';
     set_reply(okbody, 2, 2);
     C.cut = endc ? C.reply_len : 1; C.end_close = endc;
